@@ -240,6 +240,9 @@ structure Cfg where
   does not reach `cleanup_client`: the shared variable stays in place for the retry -/
   faultCreate : Nat → Bool := fun _ => false
   faultCall : Nat → Bool := fun _ => false
+  /-- `_safe_get` (222-226) swallows every exception of `Variable.get(timeout=0.1)`: thread `t`'s FIRST
+  read (280, outside the lock) times out although the variable may be set, and yields `None` -/
+  spurGet1 : Nat → Bool := fun _ => false
 
 def State.goto (s : State) (t : Nat) (p : PC) : State :=
   { s with pc := fun i => if i = t then p else s.pc i }
@@ -264,9 +267,11 @@ def step (cfg : Cfg) (s : State) (t : Nat) : State :=
   | .start => s.goto t (if s.wid w ≠ 0 then .useAssert else .askClient)
   | .askClient => s.goto t .get1
   | .get1 =>
-    match s.var with
-    | some id => s.goto t (.setOwn1 id)
-    | none => s.goto t .acquire
+    if cfg.spurGet1 t then s.goto t .acquire
+    else
+      match s.var with
+      | some id => s.goto t (.setOwn1 id)
+      | none => s.goto t .acquire
   | .setOwn1 id => (s.setWid w id).goto t .useAssert
   | .acquire =>
     match s.lock with
@@ -308,6 +313,17 @@ def step (cfg : Cfg) (s : State) (t : Nat) : State :=
 def runFrom (cfg : Cfg) (s : State) (sched : List Nat) : State := sched.foldl (step cfg) s
 
 def run (cfg : Cfg) (sched : List Nat) : State := runFrom cfg init sched
+
+/-- The same swallowed timeout in the SECOND read (291, under the lock): `spur2 t` makes thread `t`'s
+`_safe_get` yield `None` whatever the variable holds.  Kept outside `step`: the `*_once` theorems do not
+survive it (`dist_spurious_get2_cex`). -/
+def stepSpur2 (spur2 : Nat → Bool) (cfg : Cfg) (s : State) (t : Nat) : State :=
+  match s.pc t with
+  | .get2 => if spur2 t then s.goto t .initAssert else step cfg s t
+  | _ => step cfg s t
+
+def runSpur2 (spur2 : Nat → Bool) (cfg : Cfg) (s : State) (sched : List Nat) : State :=
+  sched.foldl (stepSpur2 spur2 cfg) s
 
 def enabled (s : State) (t : Nat) : Bool :=
   match s.pc t with
@@ -355,6 +371,7 @@ structure Cfg where
   lockName : Nat → Nat   -- worker ↦ name its process computes for the Lock ("MPULock-…")
   faultCreate : Nat → Bool := fun _ => false
   faultCall : Nat → Bool := fun _ => false
+  spurGet1 : Nat → Bool := fun _ => false
 
 def State.goto (s : State) (t : Nat) (p : PC) : State :=
   { s with pc := fun i => if i = t then p else s.pc i }
@@ -378,9 +395,11 @@ def step (cfg : Cfg) (s : State) (t : Nat) : State :=
   | .start => s.goto t (if s.wid w ≠ 0 then .useAssert else .askClient)
   | .askClient => s.goto t .get1
   | .get1 =>
-    match s.vars vn with
-    | some id => s.goto t (.setOwn1 id)
-    | none => s.goto t .acquire
+    if cfg.spurGet1 t then s.goto t .acquire
+    else
+      match s.vars vn with
+      | some id => s.goto t (.setOwn1 id)
+      | none => s.goto t .acquire
   | .setOwn1 id => (s.setWid w id).goto t .useAssert
   | .acquire =>
     match s.locks ln with
@@ -446,6 +465,7 @@ inductive Op where
   | cancelAll                -- `mpu.cancel("all")` / `cancel(":ALL:")` (compared case-insensitively)
   | cancelCur                -- `mpu.cancel()`: the current upload id
   | cancelId (k : Nat)       -- `mpu.cancel("id<k>")`: an explicit, possibly stale, id
+  | ensureFinal              -- `writer._ensure_init(final_write=True)` (262-275): no caller in odc-geo
   deriving DecidableEq, Repr
 
 inductive SCall where
@@ -500,6 +520,14 @@ def step (s : State) : Op → State × List SCall × Bool
       ({ s with uploadId := if k = s.uploadId then 0 else s.uploadId,
                 active := s.active.filter (· != k), aborted := k :: s.aborted }, [.abort k], true)
     else (s, [.abort k], false)
+  | .ensureFinal =>
+    -- started: returned at once (265); otherwise, under the process-wide lock, the guard
+    -- `not final_write and not mpu.started` (273) is false: nothing is initiated, the object stays unstarted
+    (s, [], true)
+
+/-- `MultiPartUpload(bucket, key, uploadId="id1")`: the object resumes an upload that somebody else
+initiated (the first one the service handed out) and that is still active -/
+def resumed : State := { uploadId := 1, creates := 1, active := [1] }
 
 def run : State → List Op → State × List SCall × List Bool
   | s, [] => (s, [], [])
